@@ -532,7 +532,17 @@ def rule_planar_slope_guard(prog, rep):
     NS = ("sym", "NEGATIVE_SLOPE")
     want = ("cmp", "<=", NS, C(0))
     gl = guard_list(it)
-    ok = any(equal(g[0], want) and len(g[2]) == 1 and equal(g[2][0], ("cmp", "is not", NS, C(None))) for g in gl)
+    def conj(ts):
+        out = []
+        for x in ts:
+            out.extend(conj(x[1]) if x[0] == "and" else [x])
+        return out
+    wset = [want, ("cmp", "is not", NS, C(None))]
+    ok = False
+    for g in gl:
+        cs = conj(list(g[2]) + [g[0]])
+        if len(cs) == 2 and all(any(equal(a, b) for b in wset) for a in cs):
+            ok = True
     rep.check(ok, "C11.guard", method_site(prog, c, "__init__"), "_UnconditionalPlanar:rejects(negative_slope <= 0)",
               "raises when a slope is given and negative_slope <= 0 (boundary included)",
               f"no guard raising on {show(want)} under `negative_slope is not None`; guards: "
